@@ -148,9 +148,9 @@ func (h c04Hook) script(dir, ns string) string {
 	fmt.Fprintf(&b, "D=%q\nH=%q\n", dir, h.Name)
 	b.WriteString(`n=$(cat "$D/count.$H" 2>/dev/null || echo 0); n=$((n+1)); echo $n > "$D/count.$H"
 ctx=$(jq -c '[.[] | [.binding, (.type // "-"), (.groupName // "-")]]' "$BINDING_CONTEXT_PATH")
+mkfifo "$D/gate.$H.$n"
 printf 'start\t%s\t%s\t%s\t%s\n' "$H" "$n" "$(date +%s%N)" "$ctx" >> "$D/log"
-while [ ! -e "$D/gate.$H.$n" ]; do sleep 0.003; done
-mode=$(cat "$D/gate.$H.$n")
+read -r mode < "$D/gate.$H.$n"
 printf 'end\t%s\t%s\t%s\t%s\n' "$H" "$n" "$(date +%s%N)" "$mode" >> "$D/log"
 case "$mode" in
   ok) exit 0 ;;
@@ -347,12 +347,30 @@ func newC04World(c *Case, r *Run, hooks []c04Hook, boInit, boStep time.Duration,
 	return w, nil
 }
 
+// openGate writes the outcome into the fifo the hook is blocked on (never blocks for ever).
+func (w *c04World) openGate(path, mode string) {
+	for i := 0; i < 2000; i++ {
+		f, err := os.OpenFile(path, os.O_WRONLY|syscall.O_NONBLOCK, 0)
+		if err == nil {
+			_, _ = f.WriteString(mode + "\n")
+			_ = f.Close()
+			return
+		}
+		time.Sleep(time.Millisecond) // ENXIO: the reader has not opened its end yet
+	}
+}
+
 func (w *c04World) close() {
 	// let every blocked hook go, then stop
-	for _, h := range w.hooks {
-		for n := 1; n < 200; n++ {
-			_ = os.WriteFile(filepath.Join(w.dir, fmt.Sprintf("gate.%s.%d", h.Name, n)), []byte("ok"), 0o644)
+	for round := 0; round < 3; round++ {
+		gates, _ := filepath.Glob(filepath.Join(w.dir, "gate.*"))
+		for _, g := range gates {
+			if f, err := os.OpenFile(g, os.O_WRONLY|syscall.O_NONBLOCK, 0); err == nil {
+				_, _ = f.WriteString("ok\n")
+				_ = f.Close()
+			}
 		}
+		time.Sleep(5 * time.Millisecond)
 	}
 	w.op.Shutdown()
 	w.cancel()
@@ -657,9 +675,8 @@ func (w *c04World) end(qn int, mode string) string {
 		mode = "ok"
 	default:
 		if run.kind == "exec" {
-			gate := filepath.Join(w.dir, fmt.Sprintf("gate.%s.%d", run.hook.Name, run.start.n))
-			_ = os.WriteFile(gate+".tmp", []byte(mode), 0o644)
-			_ = os.Rename(gate+".tmp", gate)
+			// the hook blocks reading its gate fifo
+			w.openGate(filepath.Join(w.dir, fmt.Sprintf("gate.%s.%d", run.hook.Name, run.start.n)), mode)
 		}
 		select {
 		case ret = <-rch:
